@@ -63,6 +63,8 @@ type GeneratorOutput struct {
 	Options   GeneratorOptions  `json:"meta"`
 	SourceMap *parser.SourceMap `json:"sourceMap"`
 	Literals  []string          `json:"literals"`
+	// GoSkeleton is a digest of the generated Go code without the text of its string literals.
+	GoSkeleton string `json:"goSkeleton"`
 }
 
 type GeneratorOptions struct {
@@ -92,6 +94,11 @@ func HasChanged(previous, updated GeneratorOutput) bool {
 	// We don't check the generated date as it's not used for determining if the file has changed.
 	// If the number of literals has changed, we need to recompile.
 	if len(previous.Literals) != len(updated.Literals) {
+		return true
+	}
+	// If anything in the Go code apart from the text of string literals has changed (e.g. an expression
+	// is now written by different code, or moved into another block), we need to recompile.
+	if previous.GoSkeleton != updated.GoSkeleton {
 		return true
 	}
 	// If the Go code has changed, we need to recompile.
@@ -126,6 +133,7 @@ func Generate(template parser.TemplateFile, w io.Writer, opts ...GenerateOpt) (o
 	op.Options = g.options
 	op.SourceMap = g.sourceMap
 	op.Literals = g.w.Literals
+	op.GoSkeleton = g.w.Skeleton()
 	return op, nil
 }
 
@@ -189,7 +197,8 @@ func (g *generator) writeVersionComment() (err error) {
 
 func (g *generator) writeGeneratedDateComment() (err error) {
 	if g.options.GeneratedDate != "" {
-		_, err = g.w.Write("// templ: generated: " + g.options.GeneratedDate + "\n")
+		// Not part of the skeleton: the date does not decide whether a file has changed.
+		_, err = g.w.WriteUnhashed("// templ: generated: " + g.options.GeneratedDate + "\n")
 	}
 	return err
 }
@@ -942,7 +951,16 @@ func (g *generator) writeExpressionErrorHandler(indentLevel int, expression pars
 	indentLevel++
 	line := int(expression.Range.To.Line + 1)
 	col := int(expression.Range.To.Col)
-	_, err = g.w.WriteIndent(indentLevel, "return	templ.Error{Err: templ_7745c5c3_Err, FileName: "+createGoString(g.options.FileName)+", Line: "+strconv.Itoa(line)+", Col: "+strconv.Itoa(col)+"}\n")
+	_, err = g.w.WriteIndent(indentLevel, "return	templ.Error{Err: templ_7745c5c3_Err, FileName: "+createGoString(g.options.FileName)+", ")
+	if err != nil {
+		return err
+	}
+	// The position moves with every text edit and does not affect rendering: keep it out of the skeleton.
+	_, err = g.w.WriteUnhashed("Line: " + strconv.Itoa(line) + ", Col: " + strconv.Itoa(col))
+	if err != nil {
+		return err
+	}
+	_, err = g.w.Write("}\n")
 	if err != nil {
 		return err
 	}
